@@ -6,4 +6,7 @@ $PY lib/vlib.py plain plain-noslack shared || exit 1
 $PY lib/hbuild.py plain || exit 1
 $PY lib/hbuild.py plain-noslack || exit 1
 $PY lib/hbuild.py shared || exit 1
+# sanitizer builds used by the coverage-guided phase (C01 C02 C07 C09 C11 C14 C15 C16) and by C12's race oracle
+$PY lib/hbuild.py fuzz >/dev/null 2>&1 || echo "note: fuzz build failed (built on demand)"
+$PY lib/hbuild.py tsan >/dev/null 2>&1 || echo "note: tsan build failed (built on demand)"
 echo setup ok
